@@ -7,19 +7,23 @@ from vf.core import cZ, cbool, clist, copt, cpair
 PID = "C09"
 MODULES = ["Prelude", "C09_Model", "C09_Spec", "C09_Check"]
 PROPS_MODULE = "C09_Properties"
-THEOREMS = ["C09_size_le_global", "C09_tokenbucket_le_global", "C09_fallback", "C09_fallback_heartbeat",
+THEOREMS = ["C09_size_le_global", "C09_tokenbucket_le_global", "C09_schema_update_bounds", "C09_fallback", "C09_fallback_heartbeat",
             "C09_failing_bounds", "C09_recovery_allocate", "C09_recovery_count", "C09_history"]
-# VERIF_C09_MODEL=unrepaired compares the same cases with the model of the unrepaired tree (correspondence only)
-UNREPAIRED = os.environ.get("VERIF_C09_MODEL", "") == "unrepaired"
-EVAL = "C09_Check.eval_unrepaired" if UNREPAIRED else "C09_Check.eval"
-COQ_SHARD = 45
+# VERIF_C09_MODEL=unrepaired / noreclamp compares the same cases with the model of the tree before
+# C09_clamp.diff / before C09_reclamp_on_schema_update.diff (correspondence only)
+ALT_MODEL = os.environ.get("VERIF_C09_MODEL", "")
+UNREPAIRED = ALT_MODEL in ("unrepaired", "noreclamp")
+EVAL = {"unrepaired": "C09_Check.eval_unrepaired", "noreclamp": "C09_Check.eval_noreclamp"}.get(ALT_MODEL, "C09_Check.eval")
+COQ_SHARD = 24
 CLAUSES = ["agree"] if UNREPAIRED else ["agree", "bound", "fallback", "inforce", "failing", "recovery", "nopanic"]
 RULE = ("distinct (schema, mode, clientset, event list) histories in which the remote limiter was selected at least "
         "once AND at least one server answer was out of range (negative, above the configured global value, of "
-        "another type, an error, a rejected or a stale reply) or readiness was lost")
+        "another type, an error, a rejected or a stale reply), or readiness was lost, or the schema's limits were "
+        "changed while a server quota was in force")
 TRUSTED_BASE = [
     "Coq 8.16.1 kernel + vm_compute (case files); no native_compute, no extraction",
-    "hand-written model C09_Model.v (parameter fx=true: tree with build/fixes/C09_clamp.diff) tied to the code by the "
+    "hand-written model C09_Model.v (parameters fx=fy=true: tree with build/fixes/C09_clamp.diff and "
+    "C09_reclamp_on_schema_update.diff) tied to the code by the "
     "differential run of this check (Go harness harness/c09, overlay exports)",
     "modelled not verified: sync.Map/atomics, the meter (its readings are inputs of the error reply), golib max-inflight "
     "bucket and client-go token bucket (only their size / qps,burst), the goroutines of the reconcile loop, of the "
@@ -27,7 +31,8 @@ TRUSTED_BASE = [
 ]
 ASSUMPTIONS = [
     "the schema is valid (ValidateFlowControlConfiguration): 0 <= local <= global < 2^31, token bucket local qps >= 1, "
-    "and carries its global section; it changes along a history only in its strategy",
+    "and carries its global section; along a history it changes in its strategy and in its limits (to valid limits), "
+    "never in its type",
     "server answers reach the gateway only through reconcile.updateFlowControls / updateGlobalCuntFlowControls "
     "(remoteWrapper.Sync) and globalCounter.send (SetLimit); an answer carries at most one of maxRequestsInflight / tokenBucket",
     "burst-reserve percentages are the defaults (GLOBAL_MAXINFLIGHT_BURST_PERCENT unset)",
@@ -93,6 +98,10 @@ def st(s):
     return {"op": "strategy", "s": s}
 
 
+def sch(l1, l2, g1, g2):
+    return {"op": "schema", "nl1": l1, "nl2": l2, "ng1": g1, "ng2": g2}
+
+
 def corpus():
     cs = []
     # the witnesses of the defects of the unrepaired tree (see C09_Unrepaired.v)
@@ -124,6 +133,18 @@ def corpus():
                                                  ok(True, 9, 4), err(1, 0, 5), ok(False, 0, 6), ok(True, 2, -5), ok(True, 3, 0)]))
     cs.append(tb(5, 10, 100, 50, strat="globalCount", ops=[hb(True), CFG, err(0, 7, 1), q_tb(40, 20, "globalCount"), CFG,
                                                           ok(True, 1, 2), err(0, 70, 3), ok(False, 1, 4), old(5), ok(True, 1, 6)]))
+    # schema updates changing the limits: the global limit lowered below the quota in force, the server
+    # repeating its (now stale) answer — the steady state of a server is to repeat the same quota
+    cs.append(mi(2, 10, ops=[hb(True), q_mi(8), sch(2, 0, 4, 0), q_mi(8), q_mi(8), q_mi(3), sch(1, 0, 2, 0), q_mi(3)]))
+    cs.append(tb(1, 2, 1, 40, ops=[hb(True), q_tb(1, 30), sch(1, 2, 1, 10), q_tb(1, 30), q_tb(1, 30)]))
+    cs.append(mi(2, 10, ops=[hb(True), q_mi(8), sch(2, 0, 20, 0), q_mi(15), q_mi(15), sch(2, 0, 10, 0), q_mi(15)]))
+    cs.append(mi(2, 10, ops=[q_mi(8), sch(2, 0, 4, 0), hb(True), q_mi(8)]))                  # not selected while lowered
+    cs.append(mi(5, 20, strat="globalCount", ops=[hb(True), CFG, ok(True, 15, 1), sch(5, 0, 10, 0), CFG, CFG, ok(True, 15, 2)]))
+    cs.append(mi(5, 20, strat="globalCount", ops=[hb(True), CFG, err(18, 0, 1), sch(2, 0, 10, 0), CFG, sch(2, 0, 30, 0), CFG,
+                                                 ok(True, 25, 2)]))                          # lowered while unavailable
+    cs.append(tb(5, 10, 100, 50, strat="globalCount", ops=[hb(True), CFG, err(0, 70, 1), sch(5, 10, 40, 20), CFG, ok(True, 1, 2),
+                                                          sch(5, 5, 8, 5), CFG]))
+    cs.append(mi(5, 20, ops=[hb(True), q_mi(12), st("local"), sch(5, 0, 8, 0), st("globalAllocate"), q_mi(12), q_mi(12)]))
     cs.append(mi(3, 2 ** 31 - 1, strat="globalCount", ops=[hb(True), CFG, ok(True, 2 ** 30, 1), q_mi(2 ** 30, "globalCount")]))
     cs.append(tb(1, 1, 2 ** 31 - 1, 2 ** 31 - 1, ops=[hb(True), q_tb(2 ** 31 - 1, 2 ** 31 - 1), q_tb(I32MIN, I32MIN)]))
     return cs
@@ -205,6 +226,27 @@ def gen_count(rng, c, rtstate):
     return old(rt)
 
 
+def gen_limits(rng, c, last):
+    """new valid limits of the same type, often just below / above the quota last answered."""
+    if c["kind"] == "mi":
+        ref = [c["g1"] // 2, max(c["g1"] - 1, 0), c["g1"] + 1, min(2 * c["g1"] + 1, 60), 0, 1, rng.randint(0, 40)]
+        if last and last["d"] == "mi" and 0 < last["a"] < 100:
+            ref += [last["a"] - 1, last["a"] - 1, last["a"] // 2, last["a"], last["a"] + 1]
+        g = max(0, min(rng.choice(ref), 60))
+        l = min(rng.choice([0, 1, c["l1"], c["l1"], g // 2, g]), g)
+        return sch(l, 0, g, 0)
+    refq = [max(c["g1"] // 2, 1), max(c["g1"] - 1, 1), min(c["g1"] + 1, I32MAX), min(2 * c["g1"], I32MAX), 1, rng.randint(1, 200)]
+    refb = [c["g2"] // 2, max(c["g2"] - 1, 0), min(c["g2"] + 1, I32MAX), min(2 * c["g2"], I32MAX), 0, 1, rng.randint(0, 200)]
+    if last and last["d"] == "tb" and 1 < last["a"] < 10 ** 6:
+        refq += [last["a"] - 1, last["a"] // 2 + 1, last["a"]]
+    if last and last["d"] == "tb" and 0 < last["b"] < 10 ** 6:
+        refb += [last["b"] - 1, last["b"] - 1, last["b"] // 2, last["b"]]
+    gq, gb = max(1, rng.choice(refq)), max(0, rng.choice(refb))
+    lq = min(rng.choice([1, c["l1"], max(gq // 2, 1), gq]), gq)
+    lb = min(rng.choice([c["l2"], 0, 1, lq]), gb)
+    return sch(lq, lb, gq, gb)
+
+
 def gen_case(rng, tier):
     c = gen_static(rng, tier)
     flavour = rng.below(10)
@@ -212,7 +254,7 @@ def gen_case(rng, tier):
     c["strat"] = strat
     ops = []
     rtstate = [0]
-    n = rng.randint(4, 14) if tier == "quick" else rng.randint(4, 30)
+    n = rng.randint(3, 10) if tier == "quick" else rng.randint(4, 26)
     if c["cs"] == "nil":
         for _ in range(rng.randint(0, 4)):
             ops.append(st(rng.choice(STRATS)))
@@ -256,12 +298,36 @@ def gen_case(rng, tier):
                 ops.append(st(strat))
             else:
                 ops.append(EN)
-    c["ops"] = ops
+    c["ops"] = add_schema_updates(rng, c, ops)
     return c
 
 
+def add_schema_updates(rng, c, ops):
+    """weave limit changes into a history (2 cases in 3) and make the server repeat its last answer:
+    every quota is followed, with probability 1/3, by a verbatim repetition (the steady state of a
+    limiter server), and every schema update, with probability 2/3, by 1-3 repetitions of the last quota."""
+    cur = dict(c)
+    out, last = [], None
+    updates = rng.below(3) > 0
+    for o in ops:
+        out.append(o)
+        if o["op"] == "quota":
+            last = o
+            if rng.below(3) == 0:
+                out.append(dict(o))
+        if updates and rng.below(6) == 0:
+            u = gen_limits(rng, cur, last)
+            out.append(u)
+            cur.update(l1=u["nl1"], l2=u["nl2"], g1=u["ng1"], g2=u["ng2"])
+            if last is not None and rng.below(3) > 0:
+                out.extend(dict(last) for _ in range(rng.randint(1, 3)))
+            elif rng.below(2) == 0:
+                out.append(CFG)
+    return out
+
+
 def generate(rng, tier, scale=1):
-    n = (330 if tier == "quick" else 6000) * scale
+    n = (250 if tier == "quick" else 5000) * scale
     return [gen_case(rng, tier) for _ in range(n)]
 
 
@@ -293,6 +359,8 @@ def coq_ev(o):
         return "(EElapse %s)" % cZ(o["sec"])
     if k == "strategy":
         return "(EStrategy %s)" % sc(o["s"])
+    if k == "schema":
+        return "(ESchema %s %s %s %s)" % (cZ(o["nl1"]), cZ(o["nl2"]), cZ(o["ng1"]), cZ(o["ng2"]))
     raise ValueError(k)
 
 
@@ -358,7 +426,8 @@ def nontrivial_key(case, obs):
     remote = any(s.get("sel") == "remote" for s in steps)
     bad = any(out_of_range(case, o) for o in case["ops"])
     lost = any(a.get("ready") and not b.get("ready") for a, b in zip(steps, steps[1:]))
-    if remote and (bad or lost):
+    upd = any(o["op"] == "schema" and a.get("rem") for o, a in zip(case["ops"], steps))
+    if remote and (bad or lost or upd):
         return repr((case["kind"], case["l1"], case["l2"], case["g1"], case["g2"], case["mode"], case["cs"], case["strat"],
                      case["ops"]))
     return None
@@ -374,6 +443,8 @@ def stats(case, obs):
             lab += ":" + ("same-type" if o["d"] == case["kind"] else "other-type") + (":oor" if out_of_range(case, o) else "")
         elif o["op"] == "count":
             lab += ":" + o["r"] + ("" if o["r"] != "ok" else (":accept" if o["accept"] else ":reject"))
+        elif o["op"] == "schema":
+            lab += ":global-" + ("lowered" if o["ng1"] < case["g1"] else "raised-or-same")
         labs.append("ev:%s" % lab)
         labs.append("sel:%s" % s.get("sel"))
     return labs
@@ -399,10 +470,11 @@ def known_match(entry, case, obs, failed):
 
 LEVEL_TEXT = ("full proof: Coq theorems over every valid schema (max-in-flight and token-bucket), every limiter mode and "
               "client-set state and every sequence of server answers (arbitrary integers, other types, accept/reject, "
-              "errors with arbitrary meter readings, stale and reordered replies), heartbeats, elapsed time and strategy "
-              "changes — induction over the event list with a state invariant — about a Gallina model of Load, "
+              "errors with arbitrary meter readings, stale and reordered replies, repeated answers), heartbeats, elapsed "
+              "time, strategy changes and schema updates to arbitrary valid limits (the bound is always the limit "
+              "currently configured, without a grace period) — induction over the event list with a state invariant — about a Gallina model of Load, "
               "remoteWrapper.Sync, the global-count wrappers and the readiness hysteresis; the model (of the tree with "
-              "build/fixes/C09_clamp.diff) is compared with the real upstreamLimiter on generated histories on every run "
+              "build/fixes/C09_clamp.diff and C09_reclamp_on_schema_update.diff) is compared with the real upstreamLimiter on generated histories on every run "
               "and the executable spec is evaluated on the real observations; C09_Unrepaired.v keeps the refutations for "
               "the unrepaired tree")
 LEVEL_NOTE = ("trusted: Coq kernel + vm_compute, the hand-written model (tied by differential run only), Go harness and "
